@@ -103,6 +103,9 @@ func genC02(r *Rand, idx int, tier string) Case {
 		}
 		if proc == "CREATE" {
 			q.How = uint32(r.Intn(2))
+			if r.Chance(30) {
+				q.Sa.Size = u64p(PickU64(r, 0, 3, 7))
+			}
 		}
 		s.Do(pickAdv(r), root, q)
 	}
